@@ -4,7 +4,7 @@
 // Spec functions (rev, permitted, byPrev, ...) are declared in /verif/specs/controllers.spec.
 package controllers
 
-//@ props C01,C02
+//@ props C01,C02,C15
 //@ func package-operator.run/internal/controllers.getObjectRevision
 //@   readonly
 //@   ensures (result1 != nil) == revMalformed(obj)
@@ -18,8 +18,12 @@ package controllers
 //@ func package-operator.run/internal/controllers.(*defaultAdoptionChecker).isControlledByPreviousRevision
 //@   readonly
 //@   ensures result ==> byPrev(obj, previous)
-//@   loop 1 invariant oldmem_unchanged()
-//@   loop 2 invariant oldmem_unchanged()
+// the direct half of the converse: an object controlled by any declared previous revision itself is recognised,
+// wherever that revision stands in the list (a permitted adoption is carried out)
+//@   ensures [C01,C15] !result ==> (forall k int :: 0 <= k && k < len(previous) ==> !isCtrl(obj, oid(clientObj(previous[k]))))
+//@   loop @GetRemotePhases invariant oldmem_unchanged()
+//@   loop @GetRemotePhases invariant [C01,C15] 0 <= idx && (forall k int :: 0 <= k && k < idx ==> !isCtrl(obj, oid(clientObj(previous[k]))))
+//@   loop @SetGroupVersionKind invariant oldmem_unchanged()
 // (the converse, !result ==> !byPrev, needs the frame of the freshly built owner object across the nested loops;
 //  the solvers do not discharge it reliably, so it is not claimed: see DESIGN.md §12)
 
@@ -138,10 +142,12 @@ package controllers
 //@   loop 1 invariant gomem_unchanged()
 //@   ensures gomem_unchanged()
 
-//@ props C04,C18
+//@ props C04,C12,C18
+// the owner's watches are released before its finalizer is given up (a failed or lost finalizer patch must not leave
+// the owner registered in the dynamic cache)
 //@ func package-operator.run/internal/controllers.FreeCacheAndRemoveFinalizer
 //@   sink RemoveFinalizer:Client.Patch#1 requires [C04] objid(arg1) == objid(obj)
-//@   sink RemoveFinalizer:Client.Patch#1 requires [C18] freed(obj)
+//@   sink RemoveFinalizer:Client.Patch#1 requires [C12,C18] freed(obj)
 //@   ensures tdPending() == old(tdPending())
 //@   ensures archivedNow() == old(archivedNow())
 
